@@ -39,8 +39,9 @@ def cases(tier, seed):
                 yield dict(kind='triple', T=T2, M=M2, wr=[min(w * (1 + 0.5 * sh), 1.5) if w else 0 for w in WR],
                            n=2001 if tier == 'quick' else 8001)
     yield dict(kind='invalid')
-    for neg in (None, -1, -30, -5000):
-        for cont in ('fcs', 'array', 'fcs-list', 'array-list', 'fcs-1d', 'fcs-list-rev', 'array-list-rev', 'fcs-list3', 'array-list3', 'rfi', 'shifted'):
+    for neg in (None, -1, -30, -5000, -0.01):
+        for cont in ('fcs', 'array', 'fcs-list', 'array-list', 'fcs-1d', 'fcs-list-rev', 'array-list-rev', 'fcs-list3', 'array-list3', 'rfi', 'shifted',
+                     'mixed-array-first', 'mixed-fcs-first', 'mixed3'):
             yield dict(kind='derive', neg=neg, cont=cont, dt='F')
             yield dict(kind='derive', neg=neg, cont=cont, dt='D')
     yield dict(kind='axis')
@@ -204,6 +205,15 @@ def run_derive(c, res):
                 chan = 'CH%d' % (ch + 1)
             elif cont == 'array-list3':
                 data, cols, rng = [a1, an, a0], [a1[:, ch], an[:, ch], a0[:, ch]], [None] * 3
+                chan = ch
+            elif cont == 'mixed-array-first':     # samples with and without a known range in one list: the rule applies per sample
+                data, cols, rng = [a1, d0], [a1[:, ch], a0[:, ch]], [None, ranges[ch] - 1]
+                chan = ch
+            elif cont == 'mixed-fcs-first':
+                data, cols, rng = [d0, a1], [a0[:, ch], a1[:, ch]], [ranges[ch] - 1, None]
+                chan = ch
+            elif cont == 'mixed3':
+                data, cols, rng = [an, d1, a0], [an[:, ch], a1[:, ch], a0[:, ch]], [None, ranges[ch] - 1, None]
                 chan = ch
             else:
                 data, cols, rng = d0[:, ch], [a0[:, ch]], [ranges[ch] - 1]
